@@ -76,3 +76,18 @@ package prelude
 //@   ensures result == Coins_amt(arg0, arg1)
 //@ func (github.com/cosmos/cosmos-sdk/types.Coins).Add
 //@   trusted
+
+//@ func (_.RnsKeeper).Resolve
+//@   uses storagepay
+//@   args recv ctx name
+//@   assumes A-RNSCONST: rns tables and the oracle price do not change during one storage handler
+//@   ensures (err == nil) == rns_resolve_ok(name)
+//@   ensures err == nil ==> result0 == rns_resolve(name)
+//@ func (_.AccountKeeper).HasAccount
+//@   effectfree
+//@ func (_.AccountKeeper).SetAccount
+//@   effectfree
+//@ func (_.AccountKeeper).NewAccountWithAddress
+//@   effectfree
+//@ func (_.AccountKeeper).GetAccount
+//@   effectfree
